@@ -195,7 +195,15 @@ def respellings(v):
         i = v.find(ch)
         if i >= 0:
             out.append(v[:i] + "\\" + letter + v[i + 1:])
-    return [x for x in out if x != v][:3]
+    out = [x for x in out if x != v][:3]
+    # the two characters path-handling code likes to confuse: a separator and a backslash (another string, another value)
+    if "/" in v and not v.startswith(("http", "-----")):
+        out.append(v.replace("/", "\\", 1))
+        if v.count("/") > 1:
+            out.append(v.replace("/", "\\"))
+    if "\\" in v:
+        out.append(v.replace("\\", "/", 1))
+    return [x for x in out if x != v]
 
 
 def path_respellings(p):
